@@ -120,9 +120,13 @@ package sftp
 //@   loop 1 invariant len(b) <= len(old(b))
 
 //@ func unmarshalStatus
-//@   property C20
+//@   property C20, C06
 //@   requires len(data) >= 4
 //@   ensures result != nil
+//@   ensures be32(data, 0) != id ==> typeis(result, *unexpectedIDErr)
+//@   ensures be32(data, 0) == id && len(data) < 8 ==> result == errShortPacket
+//@   ensures be32(data, 0) == id && len(data) >= 8 ==> typeis(result, *StatusError) && result.(*StatusError).Code == be32(data, 4)
+// (C06 / C20: the status code is the word behind the id; a reply that ends before it is a short packet, not status 0)
 
 // ---------------------------------------------------------------------------
 // mode conversions (stat.go, client.go)
@@ -1641,6 +1645,7 @@ package sftp
 //@ ghost var rdOKorEOF bool
 
 //@ func fileget
+//@   property C06
 //@   property C13
 //@   update after call (io.ReaderAt).ReadAt#1: ghost.rdOKorEOF = ret1 == nil || ret1 == io.EOF
 //@   ensures typeis(result, *sshFxpDataPacket) ==> ghost.rdOKorEOF
@@ -1686,6 +1691,7 @@ package sftp
 //@   ensures typeis(result, *sshFxpStatusPacket)
 
 //@ func fileputget
+//@   property C06
 //@   property C13
 //@   update after call (WriterAtReaderAt).ReadAt#1: ghost.rdOKorEOF = ret1 == nil || ret1 == io.EOF
 //@   ensures typeis(result, *sshFxpDataPacket) ==> ghost.rdOKorEOF
